@@ -15,10 +15,17 @@ REPO = os.environ.get("VERIF_REPO", "/repo")
 CACHE = os.path.join(VERIF, ".cache")
 COQ = os.path.join(VERIF, "coq")
 WORK = os.path.join(CACHE, "work")
-HARNESS_BIN = os.path.join(CACHE, "target", "debug", "verif-harness")
-HARNESS_REL = os.path.join(CACHE, "target", "release", "verif-harness")
-CLI_BIN = os.path.join(CACHE, "target-cli", "debug", "circomspect")
-MODEL_BIN = os.path.join(CACHE, "model_driver")
+# A check normally runs against /repo. For mutation testing it can be pointed
+# at a scratch worktree with VERIF_REPO=<dir>: the harness crate is then copied
+# with its path dependencies rewritten, and build output, evidence and replays
+# go under .cache/alt/<tag>/ so that nothing of the real run is overwritten.
+ALT = REPO.rstrip("/") != "/repo"
+ALT_TAG = re.sub(r"[^A-Za-z0-9]+", "_", REPO.strip("/")) if ALT else ""
+ALT_DIR = os.path.join(CACHE, "alt", ALT_TAG) if ALT else CACHE
+TARGET = os.path.join(ALT_DIR, "target")
+TARGET_CLI = os.path.join(ALT_DIR, "target-cli")
+CLI_BIN = os.path.join(TARGET_CLI, "debug", "circomspect")
+EVIDENCE_DIR = os.path.join(ALT_DIR, "evidence") if ALT else os.path.join(VERIF, "evidence")
 GUARD = "circomspect_verif"
 NPROC = os.cpu_count() or 4
 
@@ -112,35 +119,36 @@ class BuildError(Exception):
         self.detail = detail
 
 
-def build_harness(release=False):
-    """Builds the harness (and with it every crate of /repo) from the current
-    working tree with the verification cfg on."""
-    with Lock("cargo"):
-        lock_src = os.path.join(REPO, "Cargo.lock")
-        lock_dst = os.path.join(VERIF, "harness", "Cargo.lock")
-        try:
-            if open(lock_src).read() != open(lock_dst).read():
-                pass  # the harness keeps its own (superset) lock file
-        except OSError:
-            pass
-        cmd = ["cargo", "build", "--offline", "--quiet"]
+def build_harness(bin_name, release=False):
+    """Builds one harness binary (src/bin/<bin_name>.rs) — and with it the
+    crates of /repo from the current working tree — with the verification cfg
+    on. Returns the path of the binary."""
+    with Lock("cargo" + ALT_TAG):
+        cmd = ["cargo", "build", "--offline", "--quiet", "--bin", bin_name]
         if release:
             cmd.append("--release")
         env = dict(ENV)
-        env["CARGO_TARGET_DIR"] = os.path.join(CACHE, "target")
+        env["CARGO_TARGET_DIR"] = TARGET
+        hdir = os.path.join(VERIF, "harness")
+        if ALT:
+            hdir = os.path.join(ALT_DIR, "harness")
+            os.makedirs(hdir, exist_ok=True)
+            sh(["rsync", "-a", "--delete", "--exclude", "target", "--exclude", "Cargo.toml", os.path.join(VERIF, "harness") + "/", hdir + "/"], check=True)
+            toml = open(os.path.join(VERIF, "harness", "Cargo.toml")).read().replace('"/repo/', '"%s/' % REPO.rstrip("/"))
+            write_if_changed(os.path.join(hdir, "Cargo.toml"), toml)
         t0 = time.time()
-        rc, out, err = sh(cmd, cwd=os.path.join(VERIF, "harness"), env=env, timeout=1500)
+        rc, out, err = sh(cmd, cwd=hdir, env=env, timeout=1500)
         if rc != 0:
-            raise BuildError("cargo build of the harness against /repo failed", err[-4000:])
-        log("harness built in %.1fs" % (time.time() - t0))
-    return HARNESS_REL if release else HARNESS_BIN
+            raise BuildError("cargo build of harness binary `%s` against /repo failed" % bin_name, err[-4000:])
+        log("harness %s built in %.1fs" % (bin_name, time.time() - t0))
+    return os.path.join(TARGET, "release" if release else "debug", bin_name)
 
 
 def build_cli():
     """Builds the circomspect binary from /repo's current working tree."""
-    with Lock("cargo-cli"):
+    with Lock("cargo-cli" + ALT_TAG):
         env = dict(ENV)
-        env["CARGO_TARGET_DIR"] = os.path.join(CACHE, "target-cli")
+        env["CARGO_TARGET_DIR"] = TARGET_CLI
         t0 = time.time()
         rc, out, err = sh(["cargo", "build", "--offline", "--quiet", "-p", "circomspect"],
                           cwd=REPO, env=env, timeout=1500)
@@ -297,42 +305,45 @@ def check_proofs(prop, extra_targets=()):
     return res
 
 
-def build_model_driver():
-    """Extracts the models (ExtrOcamlBasic only) and compiles the OCaml driver."""
-    with Lock("extract"):
-        src = tree_files(os.path.join(COQ, "model"), (".v",)) + tree_files(os.path.join(COQ, "spec"), (".v",)) \
-            + tree_files(os.path.join(COQ, "gen"), (".v",)) \
-            + [os.path.join(COQ, "extract", "Extract.v"), os.path.join(COQ, "extract", "driver.ml")]
-        stamp = os.path.join(CACHE, "extract.stamp")
-        h = file_hash(src)
-        if os.path.exists(MODEL_BIN) and os.path.exists(stamp) and open(stamp).read() == h:
-            return MODEL_BIN
-        body = strip_coq_comments(open(os.path.join(COQ, "extract", "Extract.v")).read())
-        mods = re.findall(r"\b(Model|Spec|Gen)\.([A-Za-z0-9_]+)", body)
-        targets = sorted(set("%s/%s.vo" % (a.lower(), b) for a, b in mods))
+def build_model(engine):
+    """Extracts coq/extract/<engine>.v (ExtrOcamlBasic only) into its own
+    directory and links it with drvlib.ml and coq/extract/<engine>.ml.
+    Returns the path of the model driver binary."""
+    binary = os.path.join(CACHE, "model_" + engine)
+    with Lock("extract-" + engine):
+        ev = os.path.join(COQ, "extract", engine + ".v")
+        body = strip_coq_comments(open(ev).read())
+        mods = sorted(set(re.findall(r"\b(Model|Spec|Gen)\.([A-Za-z0-9_]+)", body)))
+        targets = ["%s/%s.vo" % (a.lower(), b) for a, b in mods]
         rc, out = coq_make(targets)
         if rc != 0:
-            raise BuildError("coq build of the models failed", out[-4000:])
-        d = os.path.join(CACHE, "extract")
+            raise BuildError("coq build of the models of engine %s failed" % engine, out[-4000:])
+        src = tree_files(os.path.join(COQ, "model"), (".v",)) + tree_files(os.path.join(COQ, "spec"), (".v",)) \
+            + tree_files(os.path.join(COQ, "gen"), (".v",)) \
+            + [ev, os.path.join(COQ, "extract", engine + ".ml"), os.path.join(COQ, "extract", "drvlib.ml")]
+        stamp = os.path.join(CACHE, "extract-%s.stamp" % engine)
+        h = file_hash(src)
+        if os.path.exists(binary) and os.path.exists(stamp) and open(stamp).read() == h:
+            return binary
+        d = os.path.join(CACHE, "extract", engine)
         os.makedirs(d, exist_ok=True)
         for f in os.listdir(d):
-            if f.endswith((".ml", ".mli", ".cmi", ".cmx", ".o", ".cmo")):
-                os.remove(os.path.join(d, f))
+            os.remove(os.path.join(d, f))
         t0 = time.time()
         flags = ["-Q", os.path.join(COQ, "model"), "Model", "-Q", os.path.join(COQ, "spec"), "Spec",
                  "-Q", os.path.join(COQ, "gen"), "Gen"]
-        rc, out, err = sh(["coqc"] + flags + ["-o", os.path.join(d, "Extract.vo"),
-                                              os.path.join(COQ, "extract", "Extract.v")], cwd=d, timeout=900)
+        rc, out, err = sh(["coqc"] + flags + ["-o", os.path.join(d, engine + ".vo"), ev], cwd=d, timeout=900)
         if rc != 0:
-            raise BuildError("extraction failed", (out + err)[-4000:])
-        sh(["cp", os.path.join(COQ, "extract", "driver.ml"), d], check=True)
-        rc, out, err = sh("ocamlfind ocamlopt -O2 -w -a -I . $(ocamldep -sort *.mli *.ml) -o %s" % MODEL_BIN,
+            raise BuildError("extraction of engine %s failed" % engine, (out + err)[-4000:])
+        sh(["cp", os.path.join(COQ, "extract", "drvlib.ml"), d], check=True)
+        sh(["cp", os.path.join(COQ, "extract", engine + ".ml"), os.path.join(d, "zz_main.ml")], check=True)
+        rc, out, err = sh("ocamlfind ocamlopt -O2 -w -a -I . $(ocamldep -sort *.mli *.ml) -o %s" % binary,
                           cwd=d, timeout=900)
         if rc != 0:
-            raise BuildError("ocaml build of the model driver failed", (out + err)[-4000:])
+            raise BuildError("ocaml build of the model driver %s failed" % engine, (out + err)[-4000:])
         open(stamp, "w").write(h)
-        log("model driver extracted and built in %.1fs" % (time.time() - t0))
-    return MODEL_BIN
+        log("model driver %s extracted and built in %.1fs" % (engine, time.time() - t0))
+    return binary
 
 
 # --------------------------------------------------------------------------
@@ -378,8 +389,8 @@ class Ctx:
 def emit(ctx, proofs, level="proof"):
     """Prints KNOWN-FINDING / VIOLATION lines, writes the evidence, returns the
     exit status."""
-    os.makedirs(os.path.join(VERIF, "evidence"), exist_ok=True)
-    rdir = os.path.join(VERIF, "evidence", "replays")
+    os.makedirs(EVIDENCE_DIR, exist_ok=True)
+    rdir = os.path.join(EVIDENCE_DIR, "replays")
     for fid, what in ctx.known_hits:
         print("KNOWN-FINDING: property=%s %s: %s" % (ctx.prop, fid, what))
     nviol = 0
@@ -419,7 +430,7 @@ def emit(ctx, proofs, level="proof"):
           "coverage": cov, "assumptions": ctx.assumptions,
           "wall_s": round(time.time() - ctx.t0, 2), "violations": nviol,
           "known_findings": ["%s: %s" % k for k in ctx.known_hits]}
-    with open(os.path.join(VERIF, "evidence", ctx.prop + ".json"), "w") as f:
+    with open(os.path.join(EVIDENCE_DIR, ctx.prop + ".json"), "w") as f:
         json.dump(ev, f, indent=1)
     return 1 if nviol else 0
 
